@@ -42,15 +42,16 @@ Mutants this was built against (scratch worktree, never /repo):
     candidate order                                                     -> caught (check() verdict)
  M8 carry-over test ignores parent_id (`parent_entry.parent_id != entry_parent_id` dropped) -> caught
  M9 symlink carry-over ignores the target                                -> caught
+ R1 fix abcfbf0 reverted (VersionedFileCommitBuilder._heads on the revision graph again)   -> caught: plain
+    VIOLATION on corpus/C02/knit-readded-id.json (oracle + check() verdict)
  H1 harmless: heads preserved-order loop rewritten as a list comprehension,
     `set(head_candidates)` -> `frozenset(...)`                          -> clean
 
-Finding on the unchanged code, family `revgraph-heads-readded-file-id` (knit formats `rich-root`,
-`knit`, …: VersionedFileCommitBuilder._heads takes heads in the *revision* graph): a file id that
-was removed and re-added, merged with a branch still holding the old version, gets stored per-file
-parents that Repository.check() reports as inconsistent.  corpus/C02/knit-readded-id.json; the
-model describes the per-file behaviour (PackCommitBuilder); histories in which only failures of
-this family occur are reported by the oracle and not counted as a correspondence failure.
+Former finding `revgraph-heads-readded-file-id` (knit formats took the heads in the *revision*
+graph; a file id removed, re-added and merged with a branch still holding the old version got
+per-file parents that check() reports as inconsistent): fixed in /repo abcfbf0.  Its input is kept
+as corpus/C02/knit-readded-id.json and expects the fixed behaviour; reverting the fix gives a plain
+VIOLATION with that input (mutant R1).
 A crash inside merge_from_branch (tree transform, e.g. NoFinalPath) is counted and skipped.
 """
 import hashlib
@@ -601,15 +602,11 @@ def _anc(pm, k, memo):
     return s
 
 
-FAMILY_REVGRAPH = "revgraph-heads-readded-file-id"
-
-
 def oracle(ctx, case, obs):
-    """returns [(message, family)]; family is computed from the failing (commit, file):
-    `revgraph-heads-readded-file-id` iff the format's commit builder takes heads in the
-    *revision* graph (VersionedFileCommitBuilder._heads not overridden: knit formats) and for
-    this commit and file id the revision-graph heads of the parents' versions differ from
-    the per-file-graph heads (a file id deleted and re-added between two of the versions)."""
+    """returns [(message, family)].  No finding family is classified any more: the former
+    `revgraph-heads-readded-file-id` defect (knit formats took heads in the revision graph) was
+    fixed in /repo abcfbf0 and is a plain violation if it returns (corpus/C02/knit-readded-id.json
+    is the regression input)."""
     bad = []
     commits = {c["n"]: c for c in obs["commits"]}
     rpm = {n: c["parents"] for n, c in commits.items()}
@@ -631,7 +628,9 @@ def oracle(ctx, case, obs):
         hs = [h for h in cands
               if not any(o != h and (fi, h) in _anc(tg, (fi, o), tmemo) for o in cands)]
         rhs = [h for h in cands if not any(o != h and h in _anc(rpm, o, rmemo) for o in cands)]
-        fam = FAMILY_REVGRAPH if (obs.get("revgraph_heads") and rhs != hs) else None
+        if rhs != hs:
+            obs["_revgraph_differs"] = obs.get("_revgraph_differs", 0) + 1
+        fam = None
         fam_at[(c["n"], fi)] = fam
         return cands, hs, fam
 
@@ -685,14 +684,8 @@ def oracle(ctx, case, obs):
                     fam_at.get((inc[0], inc[1]))))
     if chk["unreferenced"]:
         bad.append(("check(): unreferenced versions %r" % (chk["unreferenced"][:3],), None))
-    seen = set()
-    for msg, fam in bad:
-        if fam in seen and fam is not None:
-            continue
-        seen.add(fam)
+    for msg, fam in bad[:3]:
         ctx.violation(case, msg, family=fam)
-        if fam is None and len(seen) > 3:
-            break
     return bad
 
 
@@ -755,13 +748,9 @@ def run(ctx, n=None):
         ctx.count("ops_skipped", obs["skipped"])
         for mc in obs.get("merge_crashes", ()):
             ctx.count("merge_crashed_and_skipped:" + mc)
-        bad = oracle(ctx, case, obs)
-        if bad and all(fam is not None for _, fam in bad):
-            # the code deviates from the property on a classified input family: reported by the
-            # oracle above (VIOLATION / KNOWN-FINDING); the model describes the property-conforming
-            # behaviour, so the correspondence of this history is not counted as a tie failure
-            ctx.count("t2_skipped_classified_finding")
-            continue
+        oracle(ctx, case, obs)
+        if obs.get("_revgraph_differs"):
+            ctx.count("histories_where_revision_graph_heads_differ_from_per_file_heads")
         cases.append(case)
         lines.append(model_line(obs))
         impls.append(impl_reply(obs))
